@@ -95,3 +95,15 @@ Fixpoint pop_loop {C} (body : C -> bool -> verdict) (st : list C) (flag : bool) 
 
 (* sys.settrace(h) / threading.settrace(h): the hook becomes h (a hook is a number: Lifecycle.AGENT is the agent's) *)
 Definition set_hook (h : nat) : nat := h.
+
+(* Trigger.at_location delegates to its location (tied separately: TieMatch.tie_line_at_location / tie_func_at_location);
+   the event kind travels as its name *)
+Definition kind_of_name (s : str) : option ekind :=
+  if str_eqb s [99; 97; 108; 108] then Some KCall else if str_eqb s [108; 105; 110; 101] then Some KLine
+  else if str_eqb s [114; 101; 116; 117; 114; 110] then Some KReturn
+  else if str_eqb s [101; 120; 99; 101; 112; 116; 105; 111; 110] then Some KException else None.
+Definition trigger_at_location (t : trigger) (event file : str) (line : Z) (function : str) (_ : unit) : bool :=
+  match kind_of_name event with
+  | Some k => at_loc (t_loc t) {| e_kind := k; e_file := file; e_line := line; e_func := function |}
+  | None => false
+  end.
